@@ -104,6 +104,7 @@ type record struct {
 	got         map[string]headerObs
 	body        []byte
 	bodyErr     error
+	kept        runtime.ClientResponse // the response object the reader was handed: readers may keep it (an APIError does)
 }
 
 // history collects the events of a case for the failure report. It must not synchronise the calls with each
@@ -337,6 +338,7 @@ func Check(c Case) *kit.Violation {
 			Reader: runtime.ClientResponseReaderFunc(func(resp runtime.ClientResponse, cons runtime.Consumer) (interface{}, error) {
 				rec.readerCalls++
 				rec.cons = cons
+				rec.kept = resp
 				rec.code, rec.msg = resp.Code(), resp.Message()
 				for _, q := range call.queries() {
 					rec.got[q] = headerObs{resp.GetHeader(q), resp.GetHeaders(q)}
@@ -396,6 +398,23 @@ func Check(c Case) *kit.Violation {
 			return kit.Failf("call %d of %d (%s, GOMAXPROCS=%d): %s\nruntime: registry=%q default=%q runtime-level client=%s context=%s\ncall: %+v\nhistory:\n%s",
 				i, len(c.Calls), map[bool]string{true: "concurrent", false: "sequential"}[c.Concurrent], gort.GOMAXPROCS(0), msg,
 				c.Registry, c.DefaultMT, c.RtClient, c.RtCtx, c.Calls[i], e.hist)
+		}
+	}
+	// a response object that a reader kept (the way runtime.NewAPIError keeps it) still describes its own response
+	// after the later calls on the transport
+	for i := range c.Calls {
+		rec := e.recs[toks[i]]
+		if rec == nil || rec.kept == nil || rec.readerCalls == 0 {
+			continue
+		}
+		var code int
+		var msg, tokHdr string
+		if v := kit.Guard("reading a kept ClientResponse", func() { code, msg, tokHdr = rec.kept.Code(), rec.kept.Message(), rec.kept.GetHeader("X-Tok") }); v != nil {
+			return v
+		}
+		if code != rec.code || msg != rec.msg || tokHdr != toks[i] {
+			return kit.Failf("KEPT-RESPONSE call %d of %d: the response object its reader kept now reports status %d %q and token header %q; when it was read it reported %d %q and belongs to token %q\nhistory:\n%s",
+				i, len(c.Calls), code, msg, tokHdr, rec.code, rec.msg, toks[i], e.hist)
 		}
 	}
 	if n := raceErrors() - racesBefore; n > 0 {
